@@ -246,7 +246,7 @@ func TestVF_C47(t *testing.T) {
 		"last successful reload or a failed reload is pending (first apply and env-only changes: either); after the history, two healthy applies, then every output equals its input " +
 		"decompressed with $(VAR) substituted by the oracle's own expander, no output without input, and a third apply attempts no reload; distinct = hash of the history; " +
 		"non-trivial = fixed point reached and at least 2 applies had a definite expectation")
-	n := r.N(500, 6000) // real temp files: ~0.1-0.2 s per history in this sandbox
+	n := r.N(500, 20000) // real temp files: 10 ms (idle box) to 150 ms (loaded box) per history in this sandbox
 	r.Require(int64(n)*8/10, n/3)
 	r.Assume("one Reloader.apply call is the logical step of Watch (what every fsnotify event / watch tick runs); retry interval 1ms, a failing reload cancels the step's context")
 	r.Assume("the reloader process' environment is normally fixed; env changes in a history only make a reload optional, never required")
